@@ -12,7 +12,7 @@ import (
 
 func init() {
 	register(&PropDef{
-		ID: "C18", Level: "exploration", Quick: 1500, Thorough: 150000, QuickCap: 110,
+		ID: "C18", Level: "exploration", Quick: 9000, Thorough: 150000, QuickCap: 110,
 		Rule:   "each run = a table of 3-60 rows with a drawn number of cells (so that the scan spans 1..several response messages; the batch size is never assumed), one scanner task (full scan, 2-3 ranges, ranges plus repeated keys, or keys only with every row named twice) and 1-3 writer tasks (one writer per row; SetCell, DeleteFromColumn, DeleteFromRow, re-insert, ReadModifyWrite) on rows before, at and after the scan position, interleaved by the seeded scheduler (the stream's Send is where the table lock is free); oracle: ascending keys, no duplicates, every returned row is a state that row had inside the scan window, unwritten rows exact, final status OK; distinct = trace hash; non-trivial = a writer operation completed between two messages of the scan",
 		Real:   []string{"bttest ReadRows (lock reversal around Send), MutateRow, ReadModifyWriteRow", "goleveldb snapshot iteration (memory and disk engines)"},
 		Stub:   []string{"gRPC stream (recording stream whose Send yields)", "cooperative table mutex"},
